@@ -179,3 +179,9 @@ def x7_zone_offsets(ctx):
 
 
 RULES.append(('Z3', x7_zone_offsets))
+
+
+# the date spelling reader is shared with C09 / C15: an epoch round trip prints a date and reads it back
+from .C09 import d2_small_date as _d2_small_date   # noqa: E402
+
+RULES.append(('D2', _d2_small_date))
